@@ -82,11 +82,11 @@ def variants_for(prop):
 def explore(prop, seed=0, pool=None):
     vs = variants_for(prop)
     t0 = time.time()
-    if pool is None and len(vs) > 4:
-        with ProcessPoolExecutor(max_workers=min(16, os.cpu_count() or 4)) as ex:
-            results = [r for _, r in ex.map(_job, [(prop, v) for v in vs])]
-    else:
-        results = [eval_variant(prop, v) for v in vs]
+    from . import autotwins as at
+    auto = at.variants()
+    with ProcessPoolExecutor(max_workers=min(16, os.cpu_count() or 4)) as ex:
+        results = [r for _, r in ex.map(_job, [(prop, v) for v in vs])]
+        auto_results = [r for _, r in ex.map(_job, [(prop, v) for v in auto], chunksize=2)]
     br = [r for r in results if r['kind'] == 'broken']
     tw = [r for r in results if r['kind'] == 'twin']
     return {
@@ -97,6 +97,9 @@ def explore(prop, seed=0, pool=None):
         'twins_silent': sum(1 for r in tw if r['result'] == 'silent'),
         'twins_fired': [r['name'] for r in tw if r['result'] not in ('silent', 'inapplicable')],
         'inapplicable': [r['name'] for r in results if r['result'] == 'inapplicable'],
+        'autotwins': len(auto_results),
+        'autotwins_silent': sum(1 for r in auto_results if r['result'] == 'silent'),
+        'autotwins_not_silent': [r for r in auto_results if r['result'] not in ('silent', 'inapplicable')],
         'details': results,
         'wall_s': round(time.time() - t0, 2),
     }
@@ -127,9 +130,12 @@ def main(props, seed=0):
     bad = 0
     for p in props:
         res = explore(p, seed)
-        print('%s: %d variants; broken fired %d, silent %s, analysis-error %s; twins silent %d, fired %s; inapplicable %s (%.1fs)' % (
+        print('%s: %d variants; broken fired %d, silent %s, analysis-error %s; twins silent %d, fired %s; inapplicable %s; autotwins %d/%d silent (%.1fs)' % (
             p, res['variants'], res['broken_fired'], res['broken_silent'], res['broken_analysis_error'],
-            res['twins_silent'], res['twins_fired'], res['inapplicable'], res['wall_s']))
+            res['twins_silent'], res['twins_fired'], res['inapplicable'], res['autotwins_silent'], res['autotwins'], res['wall_s']))
+        for r in res['autotwins_not_silent']:
+            print('   ', r)
+        bad += len(res['autotwins_not_silent'])
         for r in res['details']:
             if r['result'] in ('crash',) or (r['kind'] == 'twin' and r['result'] != 'silent'):
                 print('   ', r)
